@@ -53,6 +53,11 @@ def parseMatNF (n m : Nat) (s : String) : Option (List (List (Option Rat))) :=
 def parseVec (n : Nat) (s : String) : Option (DVec n Rat) :=
   if s == "-" then DVec.ofList? n [] else (parseRats s) >>= DVec.ofList? n
 
+/-- a vector with possibly non-finite entries (`sqrt` of a negative eigenvalue is NaN) -/
+def parseVecNF (n : Nat) (s : String) : Option (List (Option Rat)) :=
+  let l := if s == "-" then some [] else allSome ((splitNonEmpty s ",").map parseNum?)
+  l.bind fun l => if l.length = n then some l else none
+
 def parseIdx (s : String) : Option (List Nat) := if s == "-" then some [] else parseNats s
 
 def showMat {n m : Nat} (A : DMat n m Rat) : String :=
@@ -214,7 +219,18 @@ def chkLmds (fs : List (String × String)) : String :=
       let Bm := lmdsBD dist lm
       -- oob: the model says d > n_l reads outside the eigenvector matrix
       if d > nl then s!"{distinct} model=ERR:oob{rankTok}" else
-      match field? fs "B" >>= parseMat nl nl, field? fs "V" >>= parseMat nl d, field? fs "lam" >>= parseVec d,
+      -- `sqrt` of a negative eigenvalue: no value meets the contract `s² = lam`; the code continues with NaN
+      match field? fs "s" >>= parseVecNF d, field? fs "lam" >>= parseVec d, field? fs "Y" >>= parseMatNF n d with
+      | some sNF, some lam, some Y =>
+        if sNF.any Option.isNone then
+          let consistent := (List.zip sNF lam.data.toList).all fun (si, li) => si.isSome || decide (li < 0)
+          let pre := match field? fs "B" >>= parseMat nl nl with
+            | some Bi => (cmpMat Bi Bm (tol30 * maxR 1 (maxAbs Bm))).1
+            | none => "bad-case"
+          let post := match finiteMat? n d Y with | none => "nonfinite" | some _ => "finite"
+          s!"{distinct} model=ERR:sqrtneg pre={pre} sqrt={if consistent then "ok" else "bad"} eig=na post={post}{rankTok}"
+        else
+      (match field? fs "B" >>= parseMat nl nl, field? fs "V" >>= parseMat nl d, field? fs "lam" >>= parseVec d,
             field? fs "s" >>= parseVec d, field? fs "Y" >>= parseMatNF n d with
       | some Bi, some V, some lam, some s, some Y =>
         let scaleB := maxR 1 (maxAbs Bm)
@@ -240,7 +256,8 @@ def chkLmds (fs : List (String × String)) : String :=
           | some pts => " " ++ distVerdict n Y pts (condOf lam)
           | none => ""
         s!"{distinct} model={model} pre={pre} sqrt={if sqrtOk then "ok" else "bad"} {eig} post={post}{rankTok}{distTok}"
-      | _, _, _, _, _ => "bad-case:obs"
+      | _, _, _, _, _ => "bad-case:obs")
+      | _, _, _ => "bad-case:obs0"
     | _, _ => "bad-case:lm"
   | _, _, _ => "bad-case"
 
@@ -254,7 +271,14 @@ def chkLisomap (fs : List (String × String)) : String :=
     | some G =>
       let Bm := lisomapPreD G
       if d > nl then "model=ERR:oob" else
-      match field? fs "V" >>= parseMat nl d, field? fs "lam" >>= parseVec d, field? fs "q" >>= parseVec d,
+      match field? fs "q" >>= parseVecNF d, field? fs "lam" >>= parseVec d, field? fs "Y" >>= parseMatNF n d with
+      | some qNF, some lam, some Y =>
+        if qNF.any Option.isNone then
+          let consistent := (List.zip qNF lam.data.toList).all fun (qi, li) => qi.isSome || decide (li < 0)
+          let post := match finiteMat? n d Y with | none => "nonfinite" | some _ => "finite"
+          s!"model=ERR:sqrtneg pre=na root={if consistent then "ok" else "bad"} eig=na post={post}"
+        else
+      (match field? fs "V" >>= parseMat nl d, field? fs "lam" >>= parseVec d, field? fs "q" >>= parseVec d,
             field? fs "Y" >>= parseMatNF n d with
       | some V, some lam, some q, some Y =>
         let pre :=
@@ -285,7 +309,8 @@ def chkLisomap (fs : List (String × String)) : String :=
                   maxR acc ((sumFin nl fun a => absR (Bm.get a x) * absR (V.get a i)) / absR (q.get i))) acc) (maxR 1 (maxAbs Ym))
               ("ok", (cmpMat Yi Ym (tol30 * termScale)).1)
         s!"model={model} pre={pre} root={if qOk then "ok" else "bad"} {eig} post={post}"
-      | _, _, _, _ => "bad-case:obs"
+      | _, _, _, _ => "bad-case:obs")
+      | _, _, _ => "bad-case:obs0"
     | none => "bad-case:G"
   | _, _, _ => "bad-case"
 
